@@ -255,7 +255,9 @@ WPublish ==
 
 (* ------------------------------ retirement ------------------------------ *)
 \* process_deletions: never-written -> dropped; successor not durable -> waits; the others get the
-\* RETIRED bit and (unless readers are pinned: RetireAny) their markers in this round
+\* RETIRED bit and (unless readers are pinned: RetireAny) their markers in this round.  The branch
+\* "nothing to mark but a marked entry is left -> release" is the DELETE_MARKER_DURABLE retry of the
+\* code; without reader pins no marked entry outlives its cycle, so it is never taken here.
 OnDev(g) == gens[g].sector # 0 /\ ~gens[g].rel
 Dropped == {e \in retq : gens[e.g].sector = 0}
 Eligible == {e \in retq : gens[e.g].sector # 0 /\ ~e.marked /\ (SuccTest => SuccOK(e.g))}
